@@ -43,8 +43,8 @@ theorem read_sim {wm : World B I} {ws : World SBatch SIter} (h : R S wm ws)
         have hj : j = true := by simpa [hsb] using hidx
         subst hj
         rw [hd] at hrb
-        refine Or.inr ⟨_, _, _, _, _, ?_, rfl, fun k => S.get k hrb, fun k => S.has k hrb⟩
-        simp only [Option.getD_some, S.view hrb]
+        refine Or.inr ⟨_, _, _, _, _, ?_, rfl, fun k => S.get k (h.sorted d hd) hrb, fun k => S.has k (h.sorted d hd) hrb⟩
+        simp only [Option.getD_some, S.view (h.sorted d hd) hrb]
 
 /-- the calls made inside an `Update`/`Write` callback -/
 theorem runInner_sim (d : KV) (hd : Sorted d) (idx : Bool) :
@@ -74,20 +74,20 @@ theorem runInner_sim (d : KV) (hd : Sorted d) (idx : Bool) :
       simp only [runInner]
       cases idx with
       | false => simp only [Bool.false_eq_true, if_false]; exact ⟨by rw [this.1], this.2⟩
-      | true => simp only [if_true, S.get k h]; exact ⟨by rw [this.1], this.2⟩
+      | true => simp only [if_true, S.get k hd h]; exact ⟨by rw [this.1], this.2⟩
     | has k =>
       have := ih _ _ h
       simp only [runInner]
       cases idx with
       | false => simp only [Bool.false_eq_true, if_false]; exact ⟨by rw [this.1], this.2⟩
-      | true => simp only [if_true, S.has k h]; exact ⟨by rw [this.1], this.2⟩
+      | true => simp only [if_true, S.has k hd h]; exact ⟨by rw [this.1], this.2⟩
     | scan p u =>
       have := ih _ _ h
       simp only [runInner]
       cases idx with
       | false => simp only [Bool.false_eq_true, if_false]; exact ⟨by rw [this.1], this.2⟩
       | true =>
-        simp only [if_true, S.view h]
+        simp only [if_true, S.view hd h]
         cases specImpl.bview true d sb with
         | inl e => exact ⟨by rw [this.1], this.2⟩
         | inr c => simp only [scan_sim S c p u]; exact ⟨by rw [this.1], this.2⟩
@@ -336,7 +336,7 @@ theorem step_sim {wm : World B I} {ws : World SBatch SIter} (h : R S wm ws)
       have hn : noRange sb = true := by simpa [documented, hsb] using hdoc
       refine ⟨?_, h⟩
       show Out.size (M.bsize mb) = Out.size sb.size
-      rw [S.size hrb hn]
+      rw [S.size b hok hrb hn]
   | bwrite b =>
     cases hsb : ws.batches b with
     | none =>
@@ -351,7 +351,7 @@ theorem step_sim {wm : World B I} {ws : World SBatch SIter} (h : R S wm ws)
         simp only [step, hm, hsb, h.db, hd]
         refine ⟨by first | rfl | trivial, ?_⟩
         rw [hd] at hrb
-        have hfl : M.bflush d mb = specImpl.bflush d sb := S.flush hrb
+        have hfl : M.bflush d mb = specImpl.bflush d sb := S.flush (h.sorted d hd) hrb
         have := R_commit S h (some (specImpl.bflush d sb))
           (by intro d' e; cases e; exact sorted_applyLog (h.sorted d hd) sb.log) (some b)
           (fun hn n sb' i d' hne hsb' he => by
@@ -450,7 +450,7 @@ theorem step_sim {wm : World B I} {ws : World SBatch SIter} (h : R S wm ws)
         simp only [Bool.false_eq_true, if_false] at hf5 ⊢
         refine ⟨by rw [hin.1], ?_⟩
         have hfl : M.bflush d (runInner M d idx ops (M.bempty idx)).1 =
-            specImpl.bflush d (runInner specImpl d idx ops (specImpl.bempty idx)).1 := S.flush hin.2
+            specImpl.bflush d (runInner specImpl d idx ops (specImpl.bempty idx)).1 := S.flush (h.sorted d hd) hin.2
         have := R_commit S h (some (specImpl.bflush d (runInner specImpl d idx ops (specImpl.bempty idx)).1))
           (by intro d' e; cases e; exact sorted_applyLog (h.sorted d hd) _) none
           (fun hn n sb i d' hne hsb he => by
